@@ -10,6 +10,7 @@ class C17(vlib.Spec):
                 "C17_uf_find_terminates", "C17_uf_reachable_inv", "C17_uf_same_set_spec",
                 "C17_uf_find_correct", "C17_uf_union_keeps_first_root",
                 "C17_sm_new_inv", "C17_sm_new_cycle", "C17_sm_new_total",
+                "C17_sm_group_order", "C17_sm_try_merge_exact", "C17_sm_try_merge_cycle_refused",
                 "C17_sm_try_merge_false_sound_partial", "C17_sm_try_merge_enemy_refused_partial",
                 "C17_sm_try_merge_same_group_partial",
                 "C17_is_cycle_b_spec", "C17_topo_order_b_sound", "C17_uf_model_satisfies_property"]
